@@ -271,5 +271,46 @@ func gen(r *Rand) History {
 			h.Ops = append(h.Ops, genPar(r, &h, nroots, baseEpoch))
 		}
 	}
+	// "For any roots": one history in 6 has the all-zero root (rootOf(0): the parent of the genesis
+	// block, the head of a node that has not started syncing) as one of its roots.  A pure renaming
+	// of one root of the finished history, so the history is as consistent as it was.
+	if r.Chance(1, 6) {
+		renameRoot(&h, uint64(r.Range(1, nroots)), 0)
+		h.Tags = append(h.Tags, "zero-root")
+	}
 	return h
+}
+
+// renames root `from` to `to` (not a root of the history) everywhere in the history
+func renameRoot(h *History, from, to uint64) {
+	ren := func(x *uint64) {
+		if *x == from {
+			*x = to
+		}
+	}
+	h.Chain[to] = h.Chain[from]
+	delete(h.Chain, from)
+	if h.StartHead != nil {
+		ren(&h.StartHead.Root)
+		ren(&h.StartHead.Parent)
+	}
+	for i := range h.Ops {
+		op := &h.Ops[i]
+		switch op.Kind {
+		case "event", "set", "lookup":
+			ren(&op.Root)
+		case "head":
+			ren(&op.Root)
+			ren(&op.Parent)
+		case "par":
+			for j := range op.Lookups {
+				ren(&op.Lookups[j].Root)
+			}
+			for j := range op.Extras {
+				if op.Extras[j].Kind != "clean" {
+					ren(&op.Extras[j].Root)
+				}
+			}
+		}
+	}
 }
